@@ -286,7 +286,7 @@ ITER_NEXT['range'] = range_next_obj
 def hint(I, m, a, dt): return VUnit()
 @model(r'^(?:std|core)::intrinsics::(cold_path|likely|unlikely|assume).*$')
 def intrinsics_nop(I, m, a, dt): return a[0] if a and m.group(1) in ('likely', 'unlikely') else VUnit()
-@model(r'^(?:std|core)::panicking::(panic|panic_fmt|assert_failed|panic_const::.*|unreachable_display|panic_display)(?:::<.*>)?$|^(?:std::rt::|core::panicking::)?(begin_panic|panic_explicit).*$')
+@model(r'^(?:(?:std|core)::panicking::)?(panic|panic_fmt|assert_failed|assert_failed_inner|panic_const::.*|unreachable_display|panic_display|panic_nounwind|panic_bounds_check)(?:::<.*>)?$|^(?:std::rt::|core::panicking::)?(begin_panic|panic_explicit).*$')
 def panic_model(I, m, a, dt):
     raise PathEnd('panic', 'explicit panic / failed assertion')
 @model(r'^(?:std|core)::(?:option|result)::(?:unwrap_failed|expect_failed).*$')
